@@ -435,6 +435,7 @@ class OverhangFilter(Module):
         self.backshift = pow(self.nsampling, 1/self.q)*pow(self.shift, self.p/self.q)*0.95  # 5% smaller to be on the safe side
 
     def _response(self, x):
+        x = np.asarray(x, dtype=np.float64)  # The smooth maximum needs the range of double precision
         if self.q is None:  # Set parameters according to data type of x
             self.set_parameters(x.dtype)
         xprint = x.copy()
@@ -497,7 +498,7 @@ class OverhangFilter(Module):
         return xprint
 
     def _sensitivity(self, dxprint):
-        x = self.sig_in[0].state
+        x = np.asarray(self.sig_in[0].state, dtype=np.float64)
         xprint = self.sig_out[0].state
         dxprint = dxprint.copy()  # The layer sweep below accumulates into this array; leave the seed as it is
         dx = np.zeros_like(dxprint)
